@@ -8,12 +8,14 @@
 // documented limit (32) must fail the test, write nothing (ASan guards the table) and end the phase; every program
 // ends with a probe test that redirects exactly 32 pointers and must pass (table empty after every test).
 //
-// Part B (sections chain, closure): every history of install / removePluginByName / enable / disable /
+// Part B (sections chain, midrun, closure): every history of install / removePluginByName / enable / disable /
 // resetPlugins on a private registry over recording plugins (one of them a real SetPointerPlugin); after every
 // operation the chain (getFirstPlugin/getNext walk, countPlugins, getPluginByName, isEnabled) must equal a list
 // model and a run of three tests (pass, failing, throwing) must log pre actions head-first over enabled plugins
 // and post actions in the exact reverse. chain: all histories up to a depth, unpruned. closure: the complete set of
 // reachable chain states for 4 (thorough: 5) plugins, every operation applied to every state.
+// midrun: a run of four tests with one or two chain operations executed from inside the run (test phases, plugin
+// actions); every later test must see exactly the chain as it stands when that test starts.
 #include <vector>
 #include <string>
 #include <memory>
@@ -130,6 +132,13 @@ void PTest::phase(int ph) {
 #endif
 }
 
+// section midrun: chain operations executed from inside a running test (defined further down)
+bool g_midrun;
+enum MidLoc { L_PRE_HEAD = 0, L_PRE_TAIL, L_SETUP, L_BODY, L_TEARDOWN, L_POST_TAIL, L_POST_HEAD, NLOC };
+void midrun_exec(int loc, int actor);        // executes the operations scheduled for (running test, place)
+void midrun_test_started(int k);
+Utest* midrun_make_test(int idx);
+
 bool g_runner_mode;     // observation points: false = output hooks (before pre / after post actions), true = createTest of the next test
 const char* TNAME[8] = {"t0", "t1", "t2", "t3", "t4", "t5", "t6", "t7"};
 struct PShell : UtestShell {
@@ -138,6 +147,7 @@ struct PShell : UtestShell {
     Utest* createTest() override {
         if (g_runner_mode) { if (g_k > 0) on_test_end(g_k - 1); on_test_begin(g_k); g_k++; }
         g_log.push_back(LogE{(signed char)idx, 2});
+        if (g_midrun) return midrun_make_test(idx);
         return new PTest(idx);
     }
 };
@@ -146,7 +156,7 @@ struct WatchOutput : TestOutput {
     long fails_before = 0;
     void printBuffer(const char*) override {}
     void flush() override {}
-    void printCurrentTestStarted(const UtestShell&) override { on_test_begin(g_k); g_k++; }
+    void printCurrentTestStarted(const UtestShell&) override { on_test_begin(g_k); if (g_midrun) midrun_test_started(g_k); g_k++; }
     void printCurrentTestEnded(const TestResult& r) override {
         int k = g_k - 1;
         on_test_end(k);
@@ -190,18 +200,18 @@ Script probe_script() {     // exactly LIMIT redirections of distinct targets, t
 struct RecPlugin : TestPlugin {
     int id;
     RecPlugin(const char* n, int i) : TestPlugin(n), id(i) {}
-    void preTestAction(UtestShell&, TestResult&) override { g_log.push_back(LogE{(signed char)id, 0}); }
-    void postTestAction(UtestShell&, TestResult&) override { g_log.push_back(LogE{(signed char)id, 1}); }
+    void preTestAction(UtestShell&, TestResult&) override { g_log.push_back(LogE{(signed char)id, 0}); if (g_midrun) midrun_exec(-1, id); }
+    void postTestAction(UtestShell&, TestResult&) override { g_log.push_back(LogE{(signed char)id, 1}); if (g_midrun) midrun_exec(-2, id); }
 };
 struct RecSetPlugin : SetPointerPlugin {       // the real pointer plugin, recording as well
     int id;
     RecSetPlugin(const char* n, int i) : SetPointerPlugin(n), id(i) {}
-    void preTestAction(UtestShell&, TestResult&) override { g_log.push_back(LogE{(signed char)id, 0}); }
-    void postTestAction(UtestShell& t, TestResult& r) override { SetPointerPlugin::postTestAction(t, r); g_log.push_back(LogE{(signed char)id, 1}); }
+    void preTestAction(UtestShell&, TestResult&) override { g_log.push_back(LogE{(signed char)id, 0}); if (g_midrun) midrun_exec(-1, id); }
+    void postTestAction(UtestShell& t, TestResult& r) override { SetPointerPlugin::postTestAction(t, r); g_log.push_back(LogE{(signed char)id, 1}); if (g_midrun) midrun_exec(-2, id); }
 };
 
 void reset_case_globals() {
-    g_k = 0; g_cur_k = 0; g_log.clear();
+    g_k = 0; g_cur_k = 0; g_log.clear(); g_midrun = false;
     for (int k = 0; k < MAXRUN; k++) { g_obs[k].ended = false; g_obs[k].fails = 0; g_sets_done[k] = 0; for (int t = 0; t < NT; t++) g_obs[k].final[t] = -2; }
     UtestShell::setRethrowExceptions(false);
 }
@@ -653,6 +663,236 @@ void closure_case(long idx) {
     for (int t = 0; t < NT; t++) raw_set(t, 0);
 }
 
+
+// ------------------------------------------------------------------ section midrun
+// One run of four tests; one or two chain operations are executed from inside the run: in a test's setup, body or
+// teardown, or in the pre / post action of the plugin that was head / tail of the chain when the run started.
+// Plugins: R0..R2 (ids 0..2) and N0, N1 (3, 4; installed only by operations) record; S (id 5) is a real
+// SetPointerPlugin that records. The harness keeps a live list model that is updated when an operation executes; the
+// chain and flags as they stand when a test starts (before its pre actions) are the reference for that test.
+enum MidKind { K_INSTALL_NEW = 0, K_REMOVE_HEAD, K_REMOVE_MIDDLE, K_REMOVE_TAIL, K_TOGGLE_HEAD, K_TOGGLE_TAIL, K_SETPTR, NMIDKIND };
+const char* MIDKIND_NAME[] = {"install-new-plugin", "remove-head-by-name", "remove-middle-by-name", "remove-tail-by-name", "toggle-head", "toggle-tail", "install-or-remove-SetPointerPlugin"};
+const char* MIDLOC_NAME[] = {"pre-action-of-initial-head", "pre-action-of-initial-tail", "setup", "body", "teardown", "post-action-of-initial-tail", "post-action-of-initial-head"};
+const char* MPNAME[6] = {"R0", "R1", "R2", "N0", "N1", "S"};
+const int MID_S = 5, MID_TESTS = 4;
+struct MidOp { int test, loc, kind; };
+struct MidExec { int opidx; int log_pos; int touched; std::string text; };   // an operation that really executed
+struct MidSnap { std::vector<int> chain; bool en[6]; };
+struct MidState {
+    TestRegistry* reg = nullptr; TestPlugin* P[6];
+    std::vector<int> live; bool en[6];
+    int head_actor = -1, tail_actor = -1;
+    MidOp ops[2]; int nops = 0; bool done[2];
+    std::vector<MidExec> executed;
+    MidSnap snap[MID_TESTS];
+    bool redirect[MID_TESTS];
+} g_mid;
+bool mid_in(const std::vector<int>& c, int id) { return std::find(c.begin(), c.end(), id) != c.end(); }
+std::string mid_chain_text(const std::vector<int>& c, const bool* en) { std::string o = "["; for (size_t i = 0; i < c.size(); i++) { if (i) o += ","; o += c[i] < 0 || c[i] > 5 ? "?" : MPNAME[c[i]]; if (c[i] >= 0 && c[i] <= 5 && en && !en[c[i]]) o += "(off)"; } return o + "]"; }
+
+void midrun_perform(int opidx) {
+    MidState& m = g_mid; MidOp& op = m.ops[opidx];
+    int touched = -1; std::string text;
+    switch (op.kind) {
+        case K_INSTALL_NEW: {
+            int id = !mid_in(m.live, 3) ? 3 : !mid_in(m.live, 4) ? 4 : -1;
+            if (id < 0) { vf::count("midrun_ops_inapplicable"); return; }
+            vf::ctx("midrun-installPlugin"); m.reg->installPlugin(m.P[id]); m.live.insert(m.live.begin(), id); touched = id; text = vf::fmt("install(%s)", MPNAME[id]); break; }
+        case K_REMOVE_HEAD: case K_REMOVE_MIDDLE: case K_REMOVE_TAIL: {
+            int id = -1;
+            if (op.kind == K_REMOVE_HEAD && m.live.size() >= 1) id = m.live.front();
+            if (op.kind == K_REMOVE_TAIL && m.live.size() >= 2) id = m.live.back();
+            if (op.kind == K_REMOVE_MIDDLE && m.live.size() >= 3) id = m.live[1];
+            if (id < 0) { vf::count("midrun_ops_inapplicable"); return; }
+            vf::ctx("midrun-removePluginByName"); m.reg->removePluginByName(MPNAME[id]); m.live.erase(std::find(m.live.begin(), m.live.end(), id)); touched = id; text = vf::fmt("removeByName(%s)", MPNAME[id]); break; }
+        case K_TOGGLE_HEAD: case K_TOGGLE_TAIL: {
+            if (m.live.empty() || (op.kind == K_TOGGLE_TAIL && m.live.size() < 2)) { vf::count("midrun_ops_inapplicable"); return; }
+            int id = op.kind == K_TOGGLE_HEAD ? m.live.front() : m.live.back();
+            vf::ctx("midrun-enable-disable");
+            if (m.en[id]) m.P[id]->disable(); else m.P[id]->enable();
+            m.en[id] = !m.en[id]; touched = id; text = vf::fmt("%s(%s)", m.en[id] ? "enable" : "disable", MPNAME[id]); break; }
+        default: {
+            if (!mid_in(m.live, MID_S)) { vf::ctx("midrun-installPlugin"); m.reg->installPlugin(m.P[MID_S]); m.live.insert(m.live.begin(), MID_S); text = "install(S)"; }
+            else { vf::ctx("midrun-removePluginByName"); m.reg->removePluginByName(MPNAME[MID_S]); m.live.erase(std::find(m.live.begin(), m.live.end(), MID_S)); text = "removeByName(S)"; }
+            touched = MID_S; break; }
+    }
+    vf::ctx("runAllTests");
+    m.executed.push_back(MidExec{opidx, (int)g_log.size(), touched, text});
+    g_log.push_back(LogE{(signed char)(m.executed.size() - 1), 3});
+}
+// loc >= 0: a test phase; -1 / -2: pre / post action of plugin `actor`
+void midrun_exec(int loc, int actor) {
+    MidState& m = g_mid;
+    for (int i = 0; i < m.nops; i++) {
+        if (m.done[i] || m.ops[i].test != g_cur_k) continue;
+        int l = m.ops[i].loc; bool here;
+        if (loc >= 0) here = l == loc;
+        else if (loc == -1) here = (l == L_PRE_HEAD && actor == m.head_actor) || (l == L_PRE_TAIL && actor == m.tail_actor);
+        else here = (l == L_POST_HEAD && actor == m.head_actor) || (l == L_POST_TAIL && actor == m.tail_actor);
+        if (!here) continue;
+        m.done[i] = true;
+        midrun_perform(i);
+    }
+}
+void midrun_test_started(int k) {
+    MidState& m = g_mid;
+    g_log.push_back(LogE{(signed char)k, 4});
+    if (k >= MID_TESTS) return;
+    m.snap[k].chain = m.live; for (int i = 0; i < 6; i++) m.snap[k].en[i] = m.en[i];
+    // the test redirects pointers only if S takes part at its start and no operation scheduled in it can concern S
+    bool r = mid_in(m.live, MID_S) && m.en[MID_S];
+    for (int i = 0; i < m.nops; i++) if (m.ops[i].test == k && m.ops[i].kind != K_INSTALL_NEW) r = false;
+    m.redirect[k] = r;
+}
+struct MTest : Utest {
+    int idx;
+    explicit MTest(int i) : idx(i) {}
+    void setup() override { midrun_exec(L_SETUP, -1); if (g_mid.redirect[idx]) { redirect(0, 1); g_sets_done[idx]++; } }
+    void testBody() override {
+        midrun_exec(L_BODY, -1);
+        if (g_mid.redirect[idx]) { redirect(1, 2); redirect(0, 2); g_sets_done[idx] += 2; }
+        UtestShell* cur = UtestShell::getCurrent();
+        if (idx == 1) cur->assertTrue(false, "CHECK", "scripted", NULLPTR, "c17script.cpp", 777);
+#if CPPUTEST_HAVE_EXCEPTIONS
+        if (idx == 2) throw std::runtime_error("scripted std exception");
+#else
+        if (idx == 2) cur->assertTrue(false, "CHECK_C", "scripted", NULLPTR, "c17script.cpp", 778, TestTerminatorWithoutExceptions());
+#endif
+    }
+    void teardown() override { midrun_exec(L_TEARDOWN, -1); if (g_mid.redirect[idx]) { redirect(2, 1); g_sets_done[idx]++; } }
+};
+Utest* midrun_make_test(int idx) { return new MTest(idx); }
+
+void midrun_scenario(vf::Chooser& ch, bool T) {
+    reset_case_globals(); g_runner_mode = false; g_ntests = MID_TESTS;
+    MidState& m = g_mid;
+    RecPlugin r0(MPNAME[0], 0), r1(MPNAME[1], 1), r2(MPNAME[2], 2), n0(MPNAME[3], 3), n1(MPNAME[4], 4);
+    RecSetPlugin sp(MPNAME[5], MID_S);                     // constructing it empties the pointer table
+    TestPlugin* P[6] = {&r0, &r1, &r2, &n0, &n1, &sp};
+    TestRegistry reg;
+    PShell s0(0), s1(1), s2(2), s3(3);
+    reg.addTest(&s3); reg.addTest(&s2); reg.addTest(&s1); reg.addTest(&s0);
+    m.reg = &reg; for (int i = 0; i < 6; i++) { m.P[i] = P[i]; m.en[i] = true; }
+    m.live.clear(); m.executed.clear(); m.nops = 0; m.done[0] = m.done[1] = false;
+    // initial chain: 0..3 recording plugins; S absent / installed first (tail) / installed last (head); T: one plugin disabled
+    int nr = ch.choose(4);
+    int spos = ch.choose(3);
+    int dis = T ? ch.choose(3) : 0;                        // 0 none, 1 head disabled, 2 tail disabled
+    if (spos == 1) { reg.installPlugin(P[MID_S]); m.live.insert(m.live.begin(), MID_S); }
+    for (int i = 0; i < nr; i++) { reg.installPlugin(P[i]); m.live.insert(m.live.begin(), i); }
+    if (spos == 2) { reg.installPlugin(P[MID_S]); m.live.insert(m.live.begin(), MID_S); }
+    if (dis && !m.live.empty()) { int id = dis == 1 ? m.live.front() : m.live.back(); P[id]->disable(); m.en[id] = false; }
+    m.head_actor = m.live.empty() ? -1 : m.live.front(); m.tail_actor = m.live.empty() ? -1 : m.live.back();
+    std::vector<int> initial = m.live; bool initial_en[6]; for (int i = 0; i < 6; i++) initial_en[i] = m.en[i];
+    // operations: one or two, in chronological order of their places
+    static const int PHASE_LOCS[3] = {L_SETUP, L_BODY, L_TEARDOWN};
+    int nloc = m.live.empty() ? 3 : NLOC;
+    int nplaces = (MID_TESTS - 1) * nloc;                  // the last test only observes
+    int nops = 1 + ch.choose(2);
+    int from = 0;
+    for (int i = 0; i < nops; i++) {
+        int place = from + ch.choose(nplaces - from);
+        from = place;
+        int l = place % nloc;
+        m.ops[i] = MidOp{place / nloc, m.live.empty() ? PHASE_LOCS[l] : l, ch.choose(NMIDKIND)};
+    }
+    m.nops = nops;
+    auto describe = [&]() {
+        std::string d = "midrun: chain at start " + mid_chain_text(initial, initial_en) + ";";
+        for (int i = 0; i < m.nops; i++) d += vf::fmt(" in test %d %s: %s;", m.ops[i].test, MIDLOC_NAME[m.ops[i].loc], MIDKIND_NAME[m.ops[i].kind]);
+        d += " executed:"; for (auto& e : m.executed) d += " " + e.text;
+        return d;
+    };
+    g_midrun = true;
+    WatchOutput out;
+    vf::ctx("runAllTests");
+    { TestResult result(out); reg.runAllTests(result); }
+    g_midrun = false;
+    vf::ctx("compare");
+    auto log_str = [&](size_t a, size_t b) {
+        std::string o; for (size_t i = a; i < b; i++) { const LogE& e = g_log[i];
+            if (e.kind == 0 || e.kind == 1) o += vf::fmt("%s(%s) ", e.kind ? "post" : "pre", MPNAME[(int)e.who]);
+            else if (e.kind == 2) o += "<test> "; else if (e.kind == 3) o += "{" + m.executed[(int)e.who].text + "} "; }
+        return o; };
+    // split the log into tests
+    std::vector<size_t> starts; for (size_t i = 0; i < g_log.size(); i++) if (g_log[i].kind == 4) starts.push_back(i);
+    bool good = true;
+    if ((int)starts.size() != MID_TESTS) { vf::fail("midrun/tests-executed", describe() + vf::fmt(": %zu tests started, expected %d", starts.size(), MID_TESTS)); good = false; }
+    bool chain_changed_for_later_test = false;
+    for (int k = 0; good && k < MID_TESTS; k++) {
+        size_t a = starts[k] + 1, b = k + 1 < MID_TESTS ? starts[k + 1] : g_log.size();
+        const MidSnap& sn = m.snap[k];
+        if (k > 0 && (sn.chain != m.snap[0].chain || memcmp(sn.en, m.snap[0].en, sizeof sn.en) != 0)) chain_changed_for_later_test = true;
+        // plugins concerned by operations executed during this test: their actions in this test are not asserted
+        bool touched_pre[6] = {}, touched[6] = {}; bool ops_here = false;
+        size_t marker = b; for (size_t i = a; i < b; i++) if (g_log[i].kind == 2) { marker = i; break; }
+        // an operation executed from a plugin action changes the chain while that very walk is in progress: nothing is
+        // asserted about the actions of that walk (the property speaks of the tests that follow)
+        bool walk_mutated[2] = {false, false};
+        for (size_t i = a; i < b; i++) if (g_log[i].kind == 3) {
+            const MidExec& e = m.executed[(int)g_log[i].who]; int t = e.touched; ops_here = true;
+            int l = m.ops[e.opidx].loc;
+            if (l == L_PRE_HEAD || l == L_PRE_TAIL) walk_mutated[0] = true;
+            if (l == L_POST_HEAD || l == L_POST_TAIL) walk_mutated[1] = true;
+            if (t >= 0) { touched[t] = true; if (i < marker) touched_pre[t] = true; }
+        }
+        std::vector<int> exp_pre, exp_post, obs_pre, obs_post; int npre[6] = {}, npost[6] = {};
+        for (int id : sn.chain) if (sn.en[id] && !touched_pre[id]) exp_pre.push_back(id);
+        for (size_t i = sn.chain.size(); i-- > 0;) { int id = sn.chain[i]; if (sn.en[id] && !touched[id]) exp_post.push_back(id); }
+        for (size_t i = a; i < b; i++) {
+            const LogE& e = g_log[i]; if (e.kind > 1) continue;
+            bool before = i < marker;
+            if (e.kind == 0) { npre[(int)e.who]++; if (!touched_pre[(int)e.who]) obs_pre.push_back(e.who); if (!before) { vf::fail("midrun/pre-action-after-test", describe() + vf::fmt(": test %d: ", k) + log_str(a, b)); good = false; break; } }
+            else { npost[(int)e.who]++; if (!touched[(int)e.who]) obs_post.push_back(e.who); if (before) { vf::fail("midrun/post-action-before-test", describe() + vf::fmt(": test %d: ", k) + log_str(a, b)); good = false; break; } }
+        }
+        if (!good) break;
+        if (marker == b) { vf::fail("midrun/tests-executed", describe() + vf::fmt(": test %d was never created", k)); good = false; break; }
+        for (int id = 0; id < 6 && good; id++) if ((npre[id] > 1 && !walk_mutated[0]) || (npost[id] > 1 && !walk_mutated[1])) { vf::fail("midrun/action-repeated", describe() + vf::fmt(": test %d: %s acted more than once: ", k, MPNAME[id]) + log_str(a, b)); good = false; }
+        if (!good) break;
+        for (int phase = 0; phase < 2 && good; phase++) {
+            const std::vector<int>& ex = phase ? exp_post : exp_pre; const std::vector<int>& ob = phase ? obs_post : obs_pre;
+            if (ex == ob || walk_mutated[phase]) continue;
+            good = false;
+            std::string what;
+            if (ops_here) what = "current-test/other-plugins-disturbed";
+            else {
+                what = "later-test/order";
+                for (int id : ex) if (!mid_in(ob, id)) { what = "later-test/plugin-in-chain-got-no-action"; break; }
+                for (int id : ob) if (!mid_in(ex, id)) { what = mid_in(sn.chain, id) ? "later-test/disabled-plugin-acted" : "later-test/removed-plugin-still-acted"; break; }
+            }
+            vf::fail(vf::fmt("midrun/%s", what.c_str()), describe() + vf::fmt(": test %d, chain when it started %s, %s actions: ", k, mid_chain_text(sn.chain, sn.en).c_str(), phase ? "post" : "pre") + log_str(a, b));
+        }
+        // pointers (also when the actions were wrong: a missing post action of the pointer plugin shows here) and failures
+        if (!g_obs[k].ended) { vf::fail("midrun/tests-executed", describe() + vf::fmt(": test %d never ended", k)); good = false; break; }
+        for (int t = 0; t < NT; t++) if (g_obs[k].final[t] != base_value(k)) {
+            vf::fail("midrun/pointer-not-restored", describe() + vf::fmt(": test %d (chain when it started %s, SetPointerPlugin in it and enabled) redirected p%d; after its post actions it holds v%d, expected v%d", k, mid_chain_text(sn.chain, sn.en).c_str(), t, g_obs[k].final[t], base_value(k)));
+            good = false; break;
+        }
+        if (!good) break;
+        long expf = (k == 1 || k == 2) ? 1 : 0;
+        if (good && g_obs[k].fails != expf) { vf::fail("failures/count", describe() + vf::fmt(": test %d: %ld failures, reference %ld", k, g_obs[k].fails, expf)); good = false; }
+    }
+    if (good) {
+        vf::ctx("chain-after-run");
+        std::vector<int> real = walk_chain(reg, P, 6);
+        if (real != m.live) vf::fail("midrun/chain-after-run", describe() + ": chain after the run " + mid_chain_text(real, nullptr) + ", reference " + mid_chain_text(m.live, nullptr));
+        else if (reg.countPlugins() != (int)m.live.size()) vf::fail("countPlugins/mismatch", describe() + vf::fmt(": countPlugins()=%d, reference %zu", reg.countPlugins(), m.live.size()));
+        else for (int id = 0; id < 6; id++) {
+            TestPlugin* got = reg.getPluginByName(MPNAME[id]);
+            if (got != (mid_in(m.live, id) ? P[id] : nullptr)) { vf::fail("getPluginByName/mismatch", describe() + vf::fmt(": getPluginByName(%s) after the run", MPNAME[id])); break; }
+            if (P[id]->isEnabled() != m.en[id]) { vf::fail("midrun/enabled-flag", describe() + vf::fmt(": %s isEnabled()=%d after the run", MPNAME[id], P[id]->isEnabled())); break; }
+        }
+    }
+    int redirecting = 0; for (int k = 0; k < MID_TESTS; k++) if (m.redirect[k]) redirecting++;
+    vf::count("midrun_ops_executed", (long)m.executed.size());
+    vf::count("tests_run", MID_TESTS);
+    if (chain_changed_for_later_test) vf::count("nontrivial");
+    vf::outcome(vf::fmt("executed=%zu changed-for-later-test=%d final-len=%zu redirecting-tests=%d", m.executed.size(), chain_changed_for_later_test, m.live.size() > 3 ? 3 : m.live.size(), redirecting > 2 ? 2 : redirecting));
+    if (vf::want_sample()) vf::sample(describe() + " | " + log_str(0, g_log.size()));
+    m.reg = nullptr;
+    for (int t = 0; t < NT; t++) raw_set(t, 0);
+}
+
 } // namespace
 
 int main(int argc, char** argv) {
@@ -718,6 +958,11 @@ int main(int argc, char** argv) {
         vf::info("chain.bound", vf::fmt("4 plugins (P0 = real SetPointerPlugin, recording), every history of depth %d over install(Pi) [only while Pi is not installed], removePluginByName(Pi | unknown name), toggle enable/disable(Pi), resetPlugins; unpruned; after every operation: chain walk, countPlugins, getPluginByName, isEnabled against the list model, then a run of three tests", depth));
         vf::section_dfs("chain", 2, false, [&](vf::Chooser& ch) { chain_scenario(ch, 4, depth); });
         vf::require_outcomes("chain", 8);
+    }
+    {
+        vf::info("midrun.bound", vf::fmt("one run of 4 tests; chain at start: 0..3 recording plugins x SetPointerPlugin {absent, installed first, installed last}%s; 1 or 2 operations from {install a new plugin, remove head / middle / tail by name, toggle enable of head / tail, install-or-remove the SetPointerPlugin} executed inside test 0, 1 or 2 at one of {setup, body, teardown, pre / post action of the plugin that was head / tail at the start} (two operations: every chronologically ordered pair of places); tests redirect three pointers while the model says the SetPointerPlugin takes part; reference for each test = chain and flags when the test starts", T ? " x {all enabled, head disabled, tail disabled}" : ""));
+        vf::section_dfs("midrun", 3, false, [&](vf::Chooser& ch) { midrun_scenario(ch, T); });
+        vf::require_outcomes("midrun", 8);
     }
     if (vf::section_selected("closure")) {
         int np = T ? 5 : 4;
